@@ -237,7 +237,7 @@ def compare(case, obs, model_out):
     kind = case["kind"]
     want = PREFIX + "v = " + OPEN[kind] + render_model(case, o[1]) + CLOSE[kind] + "\n"
     if want != obs["new"]:
-        return [("text", ["C03", "C11", "C02"], f"model {want!r} impl {obs['new']!r} (from {obs['src']!r}, keep {case['keep']}, ins {case['ins']})")]
+        return [("text", ["C03", "C11", "C02", "C05"], f"model {want!r} impl {obs['new']!r} (from {obs['src']!r}, keep {case['keep']}, ins {case['ins']})")]
     return []
 
 
@@ -261,6 +261,7 @@ def oracle(case, obs):
     elif got != want:
         d = f"{what}: result {obs['new']!r} holds other elements than the kept and inserted ones {exp}"
         fails.append(("C02", "elements_as_computed", d))
+        fails.append(("C05", "fix_applied_all_hold", d))
         fails.append(("C03", "valid_python", d))
         fails.append(("C11", "kept_elements_survive", d))
     else:
